@@ -1,4 +1,5 @@
-import KoordVerif.Proofs.C15Forest
+import KoordVerif.Proofs.C15ExtMin
+import KoordVerif.Proofs.C15ExtNs
 /-
 C15 — property theorems (DESIGN.md §4 C15, Appendix A.7).
 
@@ -7,27 +8,35 @@ Well-formedness of the recorded topology `s` (model state of the webhook's quota
                ∧ every parent is the root or a recorded quota marked is-parent
                ∧ `Ranked` : ∃ rank, rank root = 0 ∧ rank (parent q) < rank q   (acyclic + rooted)
                ∧ children map (quotaHierarchyInfo) = inverse of the parent links.
-FULL statement of DESIGN §4 C15 (not all of it is proved here):
-  accept_preserves_WF : WF s → (step d s op).2 = true → WF (step d s op).1   with
-  WF := Forest ∧ (min ≤ max ∧ keys(min) ⊆ keys(max) ∧ amounts ≥ 0) ∧ (Σ children min ≤ parent min, absent
-        allow-force-update / is-root requests) ∧ (max keys equal / min keys included along edges) ∧
-        (tree ids agree along edges) ∧ (namespace map = the accepted objects' annotations, injective).
-Proved below: the `Forest` part in full (`accept_preserves_WF_partial`, every request, every history,
-including acyclicity by the rank argument) and the min/max clause (`accept_preserves_minmax`).
-MISSING in Lean: min-sum, keys along edges, tree id along edges, namespace map — these clauses are
-evaluated by the harness oracle on every generated history but have no Lean proof yet.
-Out of the model: a create request for an object NAMED koordinator-root-quota (hypothesis `NotRootAdd`).
+  `WF d s`   :=  Forest ∧ key set of the children map = root + recorded names
+               ∧ (min ≤ max ∧ keys(min) ⊆ keys(max) ∧ amounts ≥ 0)
+               ∧ `MinSum`  : Σ children min ≤ parent min in every dimension, where a record carrying
+                             allow-force-update / is-root (the two labels on which checkMinQuotaValidate
+                             returns at once) is exempt as a parent and not counted as a child
+               ∧ `KeysEdge`: max keys equal / child's min keys within the parent's, along every edge
+               ∧ `TreeEdge`: tree ids equal along every edge
+               ∧ `NsOK`    : namespaceToQuotaMap[n] = q  ⇔  the recorded quota q declares n.
+FULL statement of DESIGN §4 C15, all proved below for every request and every history:
+  accept_preserves_WF : WF d s → NotRootAdd op → (step d s op).2 = true → WF d (step d s op).1     (§7)
+  history_WF / reachable_WF, reject_is_noop, delete_guard, no_cycle / cycle_rejected.
+`accept_preserves_forest` (formerly `accept_preserves_forest`) is the structural part, kept as a lemma.
+Explicit hypothesis `NotRootAdd`: a create request NAMED koordinator-root-quota (which the scheduler does
+send, createRootQuotaIfNotPresent) records a quota named root, so `Forest.nonzero` cannot survive it; the
+harness never generates it in the main/exhaustive streams and exercises it in the separate root-add
+stream.  For that request too the children-map clause is proved (§9 `accept_preserves_children_map`,
+no hypothesis on the request) — it was FALSE before the repair f812ecb (root's child set emptied).
 -/
 namespace KoordVerif.C15
 
-/-- a create request never carries the root's own name (see header). -/
+/-- a create request does not carry the root's own name (see header); decidable, checked by the harness on
+    every generated request of the main and exhaustive streams. -/
 def NotRootAdd : Op → Prop
   | .add q _ => q.name ≠ 0
   | _ => True
 
-/-! ### 1. an accepted request keeps the forest well-formed (partial: structural clauses) -/
+/-! ### 1. an accepted request keeps the forest well-formed (structural clauses; the full `WF` is §7) -/
 
-theorem accept_preserves_WF_partial (d : Nat) (s : Topo) (op : Op) (hF : Forest s) (hop : NotRootAdd op)
+theorem accept_preserves_forest (d : Nat) (s : Topo) (op : Op) (hF : Forest s) (hop : NotRootAdd op)
     (h : (step d s op).2 = true) : Forest (step d s op).1 := by
   cases op with
   | add q sw => exact forest_add hF hop h
@@ -66,7 +75,7 @@ theorem history_forest (d : Nat) (ops : List Op) (hops : ∀ op ∈ ops, NotRoot
     simp only [run]
     apply ih (fun o ho => hops o (List.mem_cons_of_mem _ ho))
     cases hres : (step d s op).2 with
-    | true => exact accept_preserves_WF_partial d s op hs (hops op (List.mem_cons_self ..)) hres
+    | true => exact accept_preserves_forest d s op hs (hops op (List.mem_cons_self ..)) hres
     | false => rw [reject_is_noop d s op hres]; exact hs
 
 theorem reachable_forest (d : Nat) (ops : List Op) (hops : ∀ op ∈ ops, NotRootAdd op) : Forest (run d init ops) :=
@@ -190,5 +199,173 @@ example : (step 1 exS (.upd { exB with parent := 5 } false false)).2 = true ∧
 example : (step 1 exS (.del 3 false)).2 = false ∧ (step 1 exS (.del 4 false)).2 = true := by decide
 -- `Anc` is inhabited non-trivially: A is an ancestor of B in exS
 example : Anc exS.info 3 4 := Anc.up (a := exB) (by decide) Anc.self
+
+/-! ### 7. FULL well-formedness (DESIGN §4 C15) and its preservation -/
+
+/-- Well-formedness of the recorded topology, every clause of the statement:
+    forest hanging off the root with children map = inverse of the parent links (`Forest`), key set of
+    the children map = root + recorded names, min ≤ max / keys(min) ⊆ keys(max) / amounts ≥ 0, the
+    children's mins sum to at most the parent's min (a record carrying allow-force-update / is-root is
+    exempt as a parent and not counted as a child — the code's two documented bypasses), max keys
+    equal and min keys included along every edge, tree ids equal along every edge, namespace map =
+    the recorded quotas' namespace annotations. -/
+structure WF (d : Nat) (s : Topo) : Prop where
+  forest : Forest s
+  hkeys  : HKeys s
+  self   : SelfOK d s
+  minSum : MinSum d s
+  keys   : KeysEdge d s
+  tree   : TreeEdge s
+  ns     : NsOK s
+
+theorem wf_init (d : Nat) : WF d init :=
+  ⟨forest_init, hkeys_init, by intro q hq; simp [init] at hq, minsum_init d,
+   by intro c hc; simp [init] at hc, by intro c hc; simp [init] at hc, ns_init⟩
+
+theorem SelfOK.nonneg {d : Nat} {s : Topo} (h : SelfOK d s) : MinNonneg d s.info :=
+  fun c hc k hk => (h c hc k hk).1
+
+theorem accept_preserves_WF (d : Nat) (s : Topo) (op : Op) (hW : WF d s) (hop : NotRootAdd op)
+    (h : (step d s op).2 = true) : WF d (step d s op).1 := by
+  have hF' := accept_preserves_forest d s op hW.forest hop h
+  have hS' := accept_preserves_minmax d s op hW.self h
+  have hF := hW.forest
+  have hu := uniq_of_nodup hF.nodup
+  cases op with
+  | add q sw =>
+    simp only [step] at h hF' hS' ⊢
+    have hA := add_facts hF hop h
+    obtain ⟨_, _, hself, _, hst⟩ := validAdd_true h
+    rw [hst] at hF' hS' ⊢
+    have hqn : ∀ k, k < d → 0 ≤ q.mn.val k := fun k hk => (selfOK_true hself k hk).1
+    exact ⟨hF', hkeys_add hW.hkeys hA, hS', minsum_add hF hW.minSum hW.self.nonneg hqn hA,
+      keys_add hF hW.keys hA, tree_add hF hW.tree hA, ns_add hW.ns h⟩
+  | upd q sw hp =>
+    simp only [step] at h hF' hS' ⊢
+    rcases validUpdate_true h with hst | ⟨o, hfo, hq0, hfree, hself, htopo, hst⟩
+    · rw [hst]; exact hW
+    · rw [hst] at hF' hS' ⊢
+      have hU := upd_facts hF hfo hq0 htopo
+      have hqn : ∀ k, k < d → 0 ≤ q.mn.val k := fun k hk => (selfOK_true hself k hk).1
+      exact ⟨hF', hkeys_upd hW.hkeys hU.mem hU.name, hS', minsum_upd hF hW.minSum hW.self.nonneg hqn hU,
+        keys_upd hF hW.keys hU, tree_upd hF hW.tree hU, ns_upd hu hW.ns hU.mem hU.name hfree⟩
+  | del n lp =>
+    simp only [step] at h hF' hS' ⊢
+    obtain ⟨o, hfo, _, _, hst⟩ := validDelete_true h
+    rw [hst] at hF' hS' ⊢
+    obtain ⟨ho, hon⟩ := find_some hfo
+    have hn0 : n ≠ 0 := by rw [← hon]; exact hF.nonzero o ho
+    exact ⟨hF', hkeys_del hW.hkeys hn0, hS', minsum_del hW.minSum hW.self.nonneg,
+      keys_del hW.keys, tree_del hW.tree, ns_del hu hW.ns ho hon⟩
+
+/-- every history: every reachable state is well-formed (accepted steps preserve, rejected steps are no-ops). -/
+theorem history_WF (d : Nat) (ops : List Op) (hops : ∀ op ∈ ops, NotRootAdd op) :
+    ∀ s, WF d s → WF d (run d s ops) := by
+  induction ops with
+  | nil => intro s hs; exact hs
+  | cons op ops ih =>
+    intro s hs
+    simp only [run]
+    apply ih (fun o ho => hops o (List.mem_cons_of_mem _ ho))
+    cases hres : (step d s op).2 with
+    | true => exact accept_preserves_WF d s op hs (hops op (List.mem_cons_self ..)) hres
+    | false => rw [reject_is_noop d s op hres]; exact hs
+
+theorem reachable_WF (d : Nat) (ops : List Op) (hops : ∀ op ∈ ops, NotRootAdd op) : WF d (run d init ops) :=
+  history_WF d ops hops init (wf_init d)
+
+/-! ### 8. the clauses of `WF` in the words of the statement -/
+
+/-- children's mins sum to at most the parent's min, when no recorded quota used a bypass label. -/
+theorem wf_min_sum {d : Nat} {s : Topo} (hW : WF d s) (hnb : ∀ c ∈ s.info, c.force = false ∧ c.treeRoot = false)
+    (p : QI) (hp : p ∈ s.info) (k : Nat) (hk : k < d) : childMinSum s.info p.name k ≤ p.mn.val k :=
+  minsum_plain hW.minSum (fun c hc => by simp [byp, hnb c hc]) p hp k hk
+
+/-- in general: a parent that did not bypass covers its non-bypassing children. -/
+theorem wf_min_sum_bypass {d : Nat} {s : Topo} (hW : WF d s) (p : QI) (hp : p ∈ s.info)
+    (hb : p.force = false ∧ p.treeRoot = false) (k : Nat) (hk : k < d) : kidSum s.info p.name k ≤ p.mn.val k :=
+  hW.minSum p hp (by simp [byp, hb]) k hk
+
+theorem keysIncl_iff {d : Nat} {p c : RL} : keysIncl d p c = true ↔ ∀ k, k < d → (c.get k).isSome = true → (p.get k).isSome = true := by
+  unfold keysIncl
+  rw [allD_iff]
+  constructor
+  · intro h k hk hc
+    have := h k hk
+    simpa [hc] using this
+  · intro h k hk
+    cases hc : (c.get k).isSome with
+    | false => simp
+    | true => simp [h k hk hc]
+
+/-- resource dimensions agree along every edge: same max keys, the child's min keys among the parent's. -/
+theorem wf_keys_edge {d : Nat} {s : Topo} (hW : WF d s) (c p : QI) (hc : c ∈ s.info) (hp : p ∈ s.info)
+    (he : p.name = c.parent) (k : Nat) (hk : k < d) :
+    ((p.mx.get k).isSome = (c.mx.get k).isSome) ∧ ((c.mn.get k).isSome = true → (p.mn.get k).isSome = true) := by
+  obtain ⟨h1, h2⟩ := hW.keys c hc p hp he
+  unfold keysSame at h1
+  rw [Bool.and_eq_true, keysIncl_iff, keysIncl_iff] at h1
+  rw [keysIncl_iff] at h2
+  refine ⟨?_, h2 k hk⟩
+  have a := h1.1 k hk
+  have b := h1.2 k hk
+  cases hx : (p.mx.get k).isSome <;> cases hy : (c.mx.get k).isSome <;> simp_all
+
+theorem wf_tree_edge {d : Nat} {s : Topo} (hW : WF d s) (c p : QI) (hc : c ∈ s.info) (hp : p ∈ s.info)
+    (he : p.name = c.parent) : p.tree = c.tree := hW.tree c hc p hp he
+
+/-- a namespace is bound to at most one quota; the namespace map only names live quotas and is exactly
+    the recorded annotations. -/
+theorem wf_namespace {d : Nat} {s : Topo} (hW : WF d s) :
+    (∀ a ∈ s.info, ∀ b ∈ s.info, ∀ n, n ∈ a.ns → n ∈ b.ns → a = b) ∧
+    (∀ n qn, nsGet s.nsMap n = some qn → ∃ q ∈ s.info, q.name = qn ∧ n ∈ q.ns) ∧
+    (∀ q ∈ s.info, ∀ n ∈ q.ns, nsGet s.nsMap n = some q.name) := by
+  refine ⟨?_, ?_, ?_⟩
+  · intro a ha b hb n hna hnb
+    exact uniq_of_nodup hW.forest.nodup a ha b hb (ns_at_most_one hW.ns ha hb hna hnb)
+  · intro n qn h; exact (hW.ns n qn).mp h
+  · intro q hq n hn; exact (hW.ns n q.name).mpr ⟨q, hq, rfl, hn⟩
+
+/-! ### 9. children map = inverse of the parent links for EVERY accepted request (no `NotRootAdd`) -/
+
+theorem accept_preserves_children_map (d : Nat) (s : Topo) (op : Op) (hK : KidsMap s)
+    (h : (step d s op).2 = true) : KidsMap (step d s op).1 := by
+  cases op with
+  | add q sw => exact kidsmap_add hK h
+  | upd q sw hp => exact kidsmap_upd hK h
+  | del n lp => exact kidsmap_del hK h
+
+theorem history_children_map (d : Nat) (ops : List Op) : ∀ s, KidsMap s → KidsMap (run d s ops) := by
+  induction ops with
+  | nil => intro s hs; exact hs
+  | cons op ops ih =>
+    intro s hs
+    simp only [run]
+    apply ih
+    cases hres : (step d s op).2 with
+    | true => exact accept_preserves_children_map d s op hs hres
+    | false => rw [reject_is_noop d s op hres]; exact hs
+
+/-! ### non-vacuity of the new clauses -/
+
+-- the scheduler's root object (name 0, parent "" = 99) created after A, B, C: accepted, and the root keeps its children
+def exRoot : QI := { name := 0, parent := 99, isParent := true, tree := 0, force := false, treeRoot := false,
+                     mn := [none], mx := [none], ns := [] }
+example : (step 1 exS (.add exRoot false)).2 = true ∧
+          isKid (step 1 exS (.add exRoot false)).1 0 3 = true ∧ isKid (step 1 exS (.add exRoot false)).1 0 5 = true := by decide
+-- it is NOT a forest in the sense of `Forest` any more (a record named root): the hypothesis NotRootAdd is needed there
+example : ¬ Forest (step 1 exS (.add exRoot false)).1 := fun hF => hF.nonzero exRoot (by decide) rfl
+-- min-sum: B (min 2) under A (min 4); a second child with min 3 is rejected, with the force label it is accepted
+-- and the plain sum then exceeds A's min: the bypass really is part of the statement
+def exD : QI := { exB with name := 6, mn := [some 3] }
+example : (step 1 exS (.add exD false)).2 = false ∧ (step 1 exS (.add { exD with force := true } false)).2 = true := by decide
+example : ¬ (childMinSum (step 1 exS (.add { exD with force := true } false)).1.info 3 0 ≤ exA.mn.val 0) := by decide
+example : kidSum (step 1 exS (.add { exD with force := true } false)).1.info 3 0 = 2 := by decide
+-- keys / tree id along an edge are enforced
+example : (step 2 exS (.add { exD with mn := [some 1], mx := [some 8, some 8] } false)).2 = false := by decide
+example : (step 1 exS (.add { exD with mn := [some 1], tree := 1 } false)).2 = false := by decide
+-- a namespace bound to A cannot be taken by a new quota, nor by an update of C
+example : (step 1 exS (.add { exD with mn := [some 1], ns := [7] } false)).2 = false ∧
+          (step 1 exS (.upd { exC with ns := [7] } false false)).2 = false := by decide
 
 end KoordVerif.C15
